@@ -16,6 +16,7 @@ EXPLANATION = (
     "checking that the queried path exists; (c) discovery normalises paths with abspath and never resolves symbolic links "
     "(a job directory symlinked into a workspace belongs to the project that holds the link); _locate_config_dir walks "
     "upwards one parent at a time and returns the first directory with a config file; get_project(search=False) does not walk."
+    ' Every upward walk in _locate_config_dir starts from os.path.abspath(...); directory creation written in init_project tolerates an existing directory.'
 )
 UNDECIDED = "Resolution for every directory layout, relative paths under varying cwd and LookupError for every non-matching input are not decided."
 
